@@ -29,6 +29,8 @@ struct Cfg {
 };
 
 struct Verdict { bool ok = true; std::string cls, msg; };
+static int g_big_above = 62;      // graphs with more edges than this take the --big path (dynamic bitsets, Horton reference)
+static double g_big_opt = -1;     // --big: optimum of the current input by the Horton reference (exact variants only)
 
 static Verdict run_and_check(int var, long k, B &b, const vg::EdgeList &el, const std::vector<double> &w, int dim,
         const vg::RefResult<double> &ref, bool verbose = false) {
@@ -48,7 +50,7 @@ static Verdict run_and_check(int var, long k, B &b, const vg::EdgeList &el, cons
     if (vptr::arena_exhausted) { fprintf(stderr, "HARNESS-ERROR pointer-order arena exhausted\n"); exit(2); }
 #endif
     if (!v.ok) return v;
-    if (el.m() > 62) {
+    if (el.m() > g_big_above) {
         // graphs beyond the 64-bit edge masks (--big): dynamic-bitset validator; oracle = the output is a cycle basis of the
         // caller's graph and the returned value is its weight (no optimum is computed at this size)
         std::vector<std::vector<int>> ids;
@@ -56,7 +58,8 @@ static Verdict run_and_check(int var, long k, B &b, const vg::EdgeList &el, cons
         auto big = vbig::check_cycles(el, w, ids, dim);
         if (verbose) printf("returned=%s emitted_total=%s count=%zu %s\n", vg::fmt_w(ret).c_str(), vg::fmt_w(big.total).c_str(), ids.size(), big.ok ? "valid" : big.msg.c_str());
         if (!big.ok) { v.ok = false; v.cls = big.cls; v.msg = big.msg; return v; }
-        if (ret != big.total) { v.ok = false; v.cls = "return-mismatch"; v.msg = "returned " + vg::fmt_w(ret) + " but emitted cycles weigh " + vg::fmt_w(big.total); }
+        if (ret != big.total) { v.ok = false; v.cls = "return-mismatch"; v.msg = "returned " + vg::fmt_w(ret) + " but emitted cycles weigh " + vg::fmt_w(big.total); return v; }
+        if (k <= 0 && g_big_opt >= 0 && big.total != g_big_opt) { v.ok = false; v.cls = "not-minimum"; v.msg = "basis weight " + vg::fmt_w(big.total) + ", optimum (Horton reference) " + vg::fmt_w(g_big_opt); }
         return v;
     }
     auto chk = vb::check_cycle_set<W>(b, w, cycles, dim);
@@ -81,7 +84,8 @@ static std::string cs_of(const vg::EdgeList &el, const std::vector<double> &w, i
 static void explore_input(vr::Runner &R, const Cfg &cfg, const vg::EdgeList &el, const std::vector<double> &w,
         const std::vector<uint64_t> &cyc, int dim, B &b) {
     b.set_weights(w);
-    vg::RefResult<double> ref; if (el.m() <= 62) { ref = vg::reference_mcb<double>(cyc, w, dim); std::sort(ref.weights.begin(), ref.weights.end()); }
+    vg::RefResult<double> ref; if (el.m() <= g_big_above) { ref = vg::reference_mcb<double>(cyc, w, dim); std::sort(ref.weights.begin(), ref.weights.end()); }
+    g_big_opt = (el.m() > g_big_above && cfg.ks.empty()) ? vbig::horton_reference(el, w).total : -1;
     std::vector<long> ks = cfg.ks.empty() ? std::vector<long>{0} : cfg.ks;
     for (long k : ks) for (int var : cfg.variants) {
         const char *site = k > 0 ? vv::approx_name(var) : vv::variant_name(var);
@@ -173,7 +177,8 @@ int main(int argc, char **argv) {
         int var = vv::variant_by_short(pc.get("variant"));
         long k = pc.get("k").empty() ? 0 : atol(pc.get("k").c_str());
         int dim = vg::cycle_space_dim(pc.g);
-        std::vector<uint64_t> cyc; if (pc.g.m() <= 62) cyc = vg::all_simple_cycles(pc.g);
+        if (pc.g.m() > 40) g_big_above = 40;      // replay: the all-cycles oracle only where it is cheap
+        std::vector<uint64_t> cyc; if (pc.g.m() <= g_big_above) cyc = vg::all_simple_cycles(pc.g);
         auto ref = vg::reference_mcb<double>(cyc, pc.w, dim); std::sort(ref.weights.begin(), ref.weights.end());
         B b(pc.g, pc.w);
         std::vector<int> seq; for (auto &t : vr::split(pc.get("choices"), '.')) if (!t.empty() && t != "threads" && t.back() != '+') seq.push_back(atoi(t.c_str()));
@@ -198,6 +203,7 @@ int main(int argc, char **argv) {
     uint64_t total_units = ngraphs * wchunks;
     uint64_t seed = (uint64_t) A.geti("seed", 0);
     int min_dim = (int) A.geti("min-dim", 0), min_m = (int) A.geti("min-m", 0), max_m = (int) A.geti("max-m", A.has("big") ? (1 << 30) : 62);
+    if (A.has("big-above")) g_big_above = (int) A.geti("big-above", 62);
     int orient_mode = (int) A.geti("orient", 0);
     vg::plus_heavy_k2() = A.has("plus-heavy-k2");
     vg::edge_order_mode() = (int) A.geti("eorder", 0);
@@ -212,7 +218,7 @@ int main(int argc, char **argv) {
         vg::EdgeList el = unit_graph(u);
         int dim = vg::cycle_space_dim(el);
         if (dim < min_dim || el.m() < min_m || el.m() > max_m) return;
-        std::vector<uint64_t> cyc; if (el.m() <= 62) cyc = vg::all_simple_cycles(el);
+        std::vector<uint64_t> cyc; if (el.m() <= g_big_above) cyc = vg::all_simple_cycles(el);
         uint64_t nw = vg::num_weightings(alpha, el.m());
         std::vector<double> w; vg::weighting(alpha, el.m(), 0, w);
         B b(el, w);
